@@ -1,0 +1,59 @@
+// Copyright 2021 TiKV Project Authors.
+//
+// Licensed under the Apache License, Version 2.0 (the "License");
+// you may not use this file except in compliance with the License.
+// You may obtain a copy of the License at
+//
+//     http://www.apache.org/licenses/LICENSE-2.0
+//
+// Unless required by applicable law or agreed to in writing, software
+// distributed under the License is distributed on an "AS IS" BASIS,
+// See the License for the specific language governing permissions and
+// limitations under the License.
+
+//go:build verif
+// +build verif
+
+// Machine-checked contracts for the id allocator (checked by /verif/govc; comment-only file).
+//
+// Ghost state: etcdhas/etcdval are the etcd store, etcdhas0/etcdval0 the store at the instant of the
+// last transaction commit (after arbitrary interference by other members, before the transaction's
+// effect), etcdn[0] counts commits of this process, etcdn[1] those that changed the store.
+package id
+
+//@ pure idKey(a *allocatorImpl) = gocall("path.Join#0/2", a.rootPath, "alloc_id")
+//@ pure leaderKey(a *allocatorImpl) = gocall("path.Join#0/2", a.rootPath, "leader")
+//@ pure owner0(a *allocatorImpl) = etcdhas0[leaderKey(a)] && etcdval0[leaderKey(a)] == a.member
+//@ pure stored0(a *allocatorImpl) = ite(etcdhas0[idKey(a)], uf("u64dec", etcdval0[idKey(a)]), 0)
+//@ pure stored(a *allocatorImpl) = ite(etcdhas[idKey(a)], uf("u64dec", etcdval[idKey(a)]), 0)
+
+// rebaseLocked: compare-and-swap on the stored end AND on the leader record, then base = end - step.
+//@ func (*allocatorImpl).rebaseLocked
+//@   props C04 C03
+//@   ensures [onecommit] etcdn[0] <= old(etcdn[0]) + 1
+//@   ensures [ok-committed] result == nil ==> etcdn[0] == old(etcdn[0]) + 1
+//@   ensures [ok-leader] result == nil ==> owner0(alloc)
+//@   ensures [ok-cas] result == nil && stored0(alloc) <= MaxUint64 - 1000 ==> alloc.base == stored0(alloc) && alloc.end == alloc.base + 1000
+//@   ensures [ok-durable] result == nil ==> etcdhas[idKey(alloc)] && uf("u64dec", etcdval[idKey(alloc)]) == alloc.end
+//@   ensures [fail-unchanged] result != nil ==> alloc.base == old(alloc.base) && alloc.end == old(alloc.end)
+//@   ensures [nonowner] etcdn[0] == old(etcdn[0]) + 1 && !owner0(alloc) ==> etcdn[1] == old(etcdn[1]) && result != nil
+//@   ensures [lostrace] etcdn[1] != old(etcdn[1]) && stored0(alloc) <= MaxUint64 - 1000 ==> stored(alloc) == stored0(alloc) + 1000
+//@   ensures [onlyidkey] forall k :: k != idKey(alloc) ==> etcdval[k] == etcdval0[k] && etcdhas[k] == etcdhas0[k] || etcdn[0] == old(etcdn[0])
+//@   modifies alloc.base, alloc.end, ghost etcdhas, ghost etcdval, ghost etcdlease, ghost etcdn, ghost etcdhas0, ghost etcdval0, ghost etcdlease0
+
+// Alloc: ids strictly increase within one allocator and never exceed the window end.
+//@ func (*allocatorImpl).Alloc
+//@   props C04
+//@   requires alloc.base <= alloc.end
+//@   ensures [inwindow] r1 == nil && (old(alloc.base) != old(alloc.end) || stored0(alloc) <= MaxUint64 - 1000) ==> r0 <= alloc.end && alloc.base == r0 && r0 > 0
+//@   ensures [fresh] r1 == nil && old(alloc.base) != old(alloc.end) ==> r0 == old(alloc.base) + 1 && alloc.end == old(alloc.end)
+//@   ensures [rebased] r1 == nil && old(alloc.base) == old(alloc.end) && stored0(alloc) <= MaxUint64 - 1000 ==> owner0(alloc) && r0 == stored0(alloc) + 1 && alloc.end == stored0(alloc) + 1000
+//@   ensures [wf] r1 == nil && (old(alloc.base) != old(alloc.end) || stored0(alloc) <= MaxUint64 - 1000) ==> alloc.base <= alloc.end
+//@   ensures [fail-unchanged] r1 != nil ==> alloc.base == old(alloc.base) && alloc.end == old(alloc.end) && r0 == 0
+//@   modifies alloc.base, alloc.end, ghost etcdhas, ghost etcdval, ghost etcdlease, ghost etcdn, ghost etcdhas0, ghost etcdval0, ghost etcdlease0
+
+//@ func (*allocatorImpl).Rebase
+//@   props C04
+//@   ensures [ok] result == nil && stored0(alloc) <= MaxUint64 - 1000 ==> owner0(alloc) && alloc.base == stored0(alloc) && alloc.end == alloc.base + 1000
+//@   ensures [fail-unchanged] result != nil ==> alloc.base == old(alloc.base) && alloc.end == old(alloc.end)
+//@   modifies alloc.base, alloc.end, ghost etcdhas, ghost etcdval, ghost etcdlease, ghost etcdn, ghost etcdhas0, ghost etcdval0, ghost etcdlease0
